@@ -594,6 +594,44 @@ pub async fn run(cx: &mut Ctx) {
                 }
             }
         }
+        // ---- C05: after every step every table reads the same on both engines, as a whole and
+        // column by column (different column subsets take different paths through the blocks)
+        if let (true, Some(mem)) = (p == "C05", &mem) {
+            for (n, (def, _)) in model.tables.clone() {
+                let ci = i % def.cols.len();
+                let cj = (i / 2 + 1) % def.cols.len();
+                let queries = [
+                    format!("SELECT * FROM {n}"),
+                    format!("SELECT {} FROM {n}", def.cols[ci].name),
+                    format!("SELECT {}, {} FROM {n}", def.cols[cj].name, def.cols[ci].name),
+                ];
+                for q in queries {
+                    let (a, b) = (db.exec(&q).await, mem.exec(&q).await);
+                    cx.stats.evaluations += 1;
+                    match (&a, &b) {
+                        (Outcome::Ok(x), Outcome::Ok(y)) => {
+                            if let Some(d) = multiset_diff(x, y) {
+                                cx.violate(Violation::new(
+                                    "C05",
+                                    "twin-rows",
+                                    Some(i),
+                                    format!("after [{i}] {}: {q}: disk vs mem: {d}", step.brief()),
+                                ));
+                            }
+                        }
+                        (Outcome::Ok(_), _) | (_, Outcome::Ok(_)) => {
+                            cx.violate(Violation::new(
+                                "C05",
+                                "twin-outcome",
+                                Some(i),
+                                format!("after [{i}] {}: {q}: disk {} but memory {}", step.brief(), a.brief(), b.brief()),
+                            ));
+                        }
+                        _ => {}
+                    }
+                }
+            }
+        }
         let l = layout(&root);
         max_rowsets = max_rowsets.max(l.rowsets_of_max);
         if p == "C05" && (l.rowsets_of_max >= 2 || compactions > 0) {
